@@ -55,6 +55,9 @@ fn main() {
         "hosts" => streams::hosts::run(&mut r, n, &mut out),
         "ip" => streams::hosts::run_ip(&mut r, n, &mut out),
         "config-load" => streams::server::run_config_load(&mut r, n, &mut out),
+        "ztext" => streams::ztext::run_rendered(&mut r, n, &mut out),
+        "ztext-roundtrip" => streams::ztext::run_roundtrip(&mut r, n, &mut out),
+        "ztext-fuzz" => streams::ztext::run_fuzz(&mut r, n, &mut out),
         other => {
             eprintln!("unknown stream {other}");
             std::process::exit(2);
